@@ -173,106 +173,110 @@ func writeUsingMaterial(mat *modeling.Material, out *txt.Writer) {
 	}
 }
 
-func writeFaceVerts(tris *iter.ArrayIterator[int], out *txt.Writer, start, end, offset int) {
-	shift := 1 + offset
+// indexBase holds, per OBJ element stream, how many records the meshes written
+// before the current one put on that stream. Each stream is numbered on its
+// own, so a mesh without normals (or texture coordinates) must not advance the
+// vn (or vt) numbering of the meshes that follow it.
+type indexBase struct {
+	v, vt, vn int
+}
+
+func writeFaceVerts(tris *iter.ArrayIterator[int], out *txt.Writer, start, end int, base indexBase) {
 	for triIndex := start; triIndex < end; triIndex += 3 {
 		out.StartEntry()
 		out.String("f ")
-		out.Int(tris.At(triIndex) + shift)
+		out.Int(tris.At(triIndex) + 1 + base.v)
 		out.Space()
-		out.Int(tris.At(triIndex+1) + shift)
+		out.Int(tris.At(triIndex+1) + 1 + base.v)
 		out.Space()
-		out.Int(tris.At(triIndex+2) + shift)
+		out.Int(tris.At(triIndex+2) + 1 + base.v)
 		out.NewLine()
 		out.FinishEntry()
 	}
 }
 
-func writeFaceVertsAndUvs(tris *iter.ArrayIterator[int], out *txt.Writer, start, end, offset int) {
-	shift := 1 + offset
+func writeFaceVertsAndUvs(tris *iter.ArrayIterator[int], out *txt.Writer, start, end int, base indexBase) {
 	for triIndex := start; triIndex < end; triIndex += 3 {
-		p1 := tris.At(triIndex) + shift
-		p2 := tris.At(triIndex+1) + shift
-		p3 := tris.At(triIndex+2) + shift
+		p1 := tris.At(triIndex) + 1
+		p2 := tris.At(triIndex+1) + 1
+		p3 := tris.At(triIndex+2) + 1
 
 		out.StartEntry()
 		out.String("f ")
 
-		out.Int(p1)
+		out.Int(p1 + base.v)
 		out.String("/")
-		out.Int(p1)
+		out.Int(p1 + base.vt)
 		out.Space()
 
-		out.Int(p2)
+		out.Int(p2 + base.v)
 		out.String("/")
-		out.Int(p2)
+		out.Int(p2 + base.vt)
 		out.Space()
 
-		out.Int(p3)
+		out.Int(p3 + base.v)
 		out.String("/")
-		out.Int(p3)
+		out.Int(p3 + base.vt)
 		out.NewLine()
 		out.FinishEntry()
 	}
 }
 
-func writeFaceVertsAndNormals(tris *iter.ArrayIterator[int], out *txt.Writer, start, end, offset int) {
-	shift := 1 + offset
+func writeFaceVertsAndNormals(tris *iter.ArrayIterator[int], out *txt.Writer, start, end int, base indexBase) {
 	for triIndex := start; triIndex < end; triIndex += 3 {
-		p1 := tris.At(triIndex) + shift
-		p2 := tris.At(triIndex+1) + shift
-		p3 := tris.At(triIndex+2) + shift
+		p1 := tris.At(triIndex) + 1
+		p2 := tris.At(triIndex+1) + 1
+		p3 := tris.At(triIndex+2) + 1
 
 		out.StartEntry()
 		out.String("f ")
 
-		out.Int(p1)
+		out.Int(p1 + base.v)
 		out.String("//")
-		out.Int(p1)
+		out.Int(p1 + base.vn)
 		out.Space()
 
-		out.Int(p2)
+		out.Int(p2 + base.v)
 		out.String("//")
-		out.Int(p2)
+		out.Int(p2 + base.vn)
 		out.Space()
 
-		out.Int(p3)
+		out.Int(p3 + base.v)
 		out.String("//")
-		out.Int(p3)
+		out.Int(p3 + base.vn)
 		out.NewLine()
 		out.FinishEntry()
 	}
 }
 
-func writeFaceVertAndUvsAndNormals(tris *iter.ArrayIterator[int], out *txt.Writer, start, end, offset int) {
-	shift := 1 + offset
+func writeFaceVertAndUvsAndNormals(tris *iter.ArrayIterator[int], out *txt.Writer, start, end int, base indexBase) {
 	for triIndex := start; triIndex < end; triIndex += 3 {
-		p1 := tris.At(triIndex) + shift
-		p2 := tris.At(triIndex+1) + shift
-		p3 := tris.At(triIndex+2) + shift
+		p1 := tris.At(triIndex) + 1
+		p2 := tris.At(triIndex+1) + 1
+		p3 := tris.At(triIndex+2) + 1
 
 		out.StartEntry()
 		out.String("f ")
 
-		out.Int(p1)
+		out.Int(p1 + base.v)
 		out.String("/")
-		out.Int(p1)
+		out.Int(p1 + base.vt)
 		out.String("/")
-		out.Int(p1)
+		out.Int(p1 + base.vn)
 		out.Space()
 
-		out.Int(p2)
+		out.Int(p2 + base.v)
 		out.String("/")
-		out.Int(p2)
+		out.Int(p2 + base.vt)
 		out.String("/")
-		out.Int(p2)
+		out.Int(p2 + base.vn)
 		out.Space()
 
-		out.Int(p3)
+		out.Int(p3 + base.v)
 		out.String("/")
-		out.Int(p3)
+		out.Int(p3 + base.vt)
 		out.String("/")
-		out.Int(p3)
+		out.Int(p3 + base.vn)
 		out.NewLine()
 		out.FinishEntry()
 	}
@@ -358,9 +362,9 @@ func WriteMeshes(meshes []ObjMesh, materialFile string, out io.Writer) error {
 		}
 	}
 
-	var faceWriter func(tris *iter.ArrayIterator[int], out *txt.Writer, start, end, offset int)
+	var faceWriter func(tris *iter.ArrayIterator[int], out *txt.Writer, start, end int, base indexBase)
 
-	indexOffset := 0
+	var base indexBase
 	for _, objMesh := range meshes {
 		if len(meshes) > 1 || objMesh.Name != "" {
 			fmt.Fprintf(out, "g %s\n", objMesh.Name)
@@ -380,7 +384,7 @@ func WriteMeshes(meshes []ObjMesh, materialFile string, out io.Writer) error {
 		mats := m.Materials()
 		indices := m.Indices()
 		if len(mats) == 0 {
-			faceWriter(indices, writer, 0, indices.Len(), indexOffset)
+			faceWriter(indices, writer, 0, indices.Len(), base)
 			if err := writer.Error(); err != nil {
 				return fmt.Errorf("failed to write faces: %w", err)
 			}
@@ -393,7 +397,7 @@ func WriteMeshes(meshes []ObjMesh, materialFile string, out io.Writer) error {
 				}
 
 				nextOffset := offset + (mat.PrimitiveCount * 3)
-				faceWriter(indices, writer, offset, nextOffset, indexOffset)
+				faceWriter(indices, writer, offset, nextOffset, base)
 				if err := writer.Error(); err != nil {
 					return fmt.Errorf("failed to write faces: %w", err)
 				}
@@ -401,7 +405,16 @@ func WriteMeshes(meshes []ObjMesh, materialFile string, out io.Writer) error {
 				offset = nextOffset
 			}
 		}
-		indexOffset += m.AttributeLength()
+
+		if m.HasFloat3Attribute(modeling.PositionAttribute) {
+			base.v += m.Float3Attribute(modeling.PositionAttribute).Len()
+		}
+		if m.HasFloat2Attribute(modeling.TexCoordAttribute) {
+			base.vt += m.Float2Attribute(modeling.TexCoordAttribute).Len()
+		}
+		if m.HasFloat3Attribute(modeling.NormalAttribute) {
+			base.vn += m.Float3Attribute(modeling.NormalAttribute).Len()
+		}
 	}
 
 	return nil
